@@ -73,6 +73,17 @@ def assocInsert {κ ν : Type} (kv : κ × ν) (m : List (κ × ν)) : List (κ 
 /-- Visiting the members of a set in *graph order* (`for node in nodes: if node in S`). -/
 def inGraphOrder (g : Graph) (s : List Nat) : Graph := g.filter (fun n => s.contains n.id)
 
+/-- `for n in S: n.replace_input_with(…)`: every member edits only its own slot of the state. -/
+def ownSlot {β : Type} (kv : Nat × β) (s : Nat → β) : Nat → β := fun w => if w = kv.1 then kv.2 else s w
+
+/-- `for x in S: out.append(f x)` — the loop of `_lower_and_call` that appends one function
+    input per call parameter in `call_param_names` (a `set[str]`). -/
+def appendStep {α β : Type} (f : α → β) (a : α) (acc : List β) : List β := acc ++ [f a]
+
+/-- Visiting the members of a set in the order of a reference sequence
+    (`for k in ordered: if k in S`). -/
+def inRefOrder {α : Type} [BEq α] (ref : List α) (s : List α) : List α := ref.filter (fun a => s.contains a)
+
 /-! ### The shape refresh inside the multi-transpose fold -/
 
 abbrev Shape := List Nat
